@@ -1,4 +1,4 @@
-(* The cursor bookkeeping proposed for hygienize (harness/C16/proposed_repairs/hygienize_cursors.diff):
+(* The cursor bookkeeping of hygienize (ppcontext.lua since 6cc3727):
    the statements a hygienized function emits itself keep their emission order, whatever its body calls. *)
 From Coq Require Import ZArith Bool List Lia.
 From C16 Require Import Model.
@@ -340,7 +340,7 @@ Proof.
   unfold halves in H2. inversion H2 as [[A B]]. rewrite A, B. simpl. apply app_nil_r.
 Qed.
 
-(* non-vacuity: the witness that today's code turns into B, A2, A1 *)
+(* non-vacuity: the witness that the index bookkeeping used before 6cc3727 turned into B, A2, A1 *)
 Example cursor_witness :
   hc_nodes (hc_run (mkHC [100; 200] None None (fun _ => 0%nat)) (HCall 1%nat [HEmit 1; HCall 0%nat [HEmit 5]; HEmit 2]))
   = [1; 5; 2; 100; 200].
